@@ -95,6 +95,8 @@ def rule_witness(rep, build, tier):
                               "does not compile when used: %s (%s)" % (msg, member), config=cname)
             if comp == "clang++" and rc == 0:
                 rule_container_lengths(rep, build, src, outdir, extra, cname, "-ir-%d" % no_stl)
+                if not no_stl:
+                    rule_wrapper_semantics(rep, os.path.join(outdir, "witness-ir-0.opt.ll"), outdir)
             bad_members = set(_norm_member(m) for _, _, _, m in errs)
             good = w.count - len(bad_members)
             rep.instance(rid, max(good, 0), {"config": cname, "uses": w.count,
@@ -519,3 +521,103 @@ def check_set_key(rep, m, f, cls, R):
                       "documented to select the all-zero key" % (cls, (bad.callee or bad.op)))
     else:
         rep.instance("C17.D3", 1, {"method": "%s::set_key" % cls, "zero_length_blocks": len(zero_blocks)})
+
+
+def rule_wrapper_semantics(rep, witness_ll, outdir):
+    """D5 (mode level, bounded shape, all data values): the header-inline hash /
+    XOF classes give what the C API gives.  The IR of the instantiation witness
+    is linked with the library's IR (64-bit C back end) and interpreted over bit
+    expressions with the permutation uninterpreted: for each class a fresh
+    object and the same object after reset() must produce, for a symbolic
+    9-byte input, exactly the output of the C sequence init(_fixed) / absorb /
+    squeeze (hash: update / finalize)."""
+    from . import modes, sponge
+    from .affine import Unsupported, Ptr, const_bits
+    rid = "C17.D5"
+    rep.rule(rid, "header-inline hash / XOF classes (fresh and after reset()) return what the C functions return")
+    b = repo.configure(repo.Config("c64"))
+    lr = repo.lower(b, group="lib", level="O0", tolerate=tuple(u.rel for u in b.group("lib", ("c++",))))
+    both = os.path.join(outdir, "witness-plus-lib.ll")
+    js = os.path.join(outdir, "witness-plus-lib.json")
+    try:
+        repo.run(["llvm-link-14", "-S", "-o", both, witness_ll, lr.path])
+        repo.run([repo.IRDUMP, both, js])
+    except repo.AnalysisBroken as e:
+        rep.unproved_item(rid, "witness and library IR do not link: %s" % str(e)[-200:])
+        return
+    m = ir.Module.load(js)
+    layout = sponge.layout_of(b)
+    names = sorted(f.name for f in m.defined() if f.name.startswith("_ZN") and "5ascon" in f.name)
+    out = subprocess.run(["llvm-cxxfilt-14"], input="\n".join(names).encode(), stdout=subprocess.PIPE).stdout.decode().splitlines()
+    by_dem = {}
+    for n, d in zip(names, out):
+        by_dem.setdefault(d, n)
+
+    def find(cls, sig):
+        return by_dem.get("ascon::%s::%s" % (cls, sig))
+    classes = []
+    for d in by_dem:
+        mm = re.match(r"^ascon::(xofa?_with_output_length<(\d+)ul>)::reset\(\)$", d)
+        if mm:
+            classes.append((mm.group(1), "xofa" if mm.group(1).startswith("xofa") else "xof", int(mm.group(2))))
+    for cls, fam in (("hash", "hash"), ("hasha", "hasha")):
+        if find(cls, "reset()"):
+            classes.append((cls, fam, None))
+    if len(classes) < 4:
+        rep.unproved_item(rid, "only %d header-inline classes found in the witness IR" % len(classes))
+        return
+    for cls, fam, n in sorted(classes):
+        short = cls.split("<")[0]
+        ctor = find(cls, "%s()" % short)
+        reset = find(cls, "reset()")
+        if fam.startswith("xof"):
+            absorb = find(cls, "absorb(unsigned char const*, unsigned long)")
+            squeeze = find(cls, "squeeze(unsigned char*, unsigned long)")
+        else:
+            absorb = find(cls, "update(unsigned char const*, unsigned long)")
+            squeeze = find(cls, "finalize(unsigned char*)")
+        if not all((ctor, reset, absorb, squeeze)):
+            rep.unproved_item(rid, "%s: constructor / reset / absorb / squeeze not all emitted in the witness" % cls)
+            continue
+        try:
+            R = modes.Run(m, layout)
+            M = R.buf("M", 9)
+            # reference: the C API
+            st = R.obj(R.struct_size("ascon_%s_state_t" % fam))
+            ref = R.out(32)
+            if fam.startswith("xof"):
+                R.call("ascon_%s_init_fixed" % fam, st, n)
+                R.call("ascon_%s_absorb" % fam, st, M, 9)
+                R.call("ascon_%s_squeeze" % fam, st, ref, 32)
+            else:
+                R.call("ascon_%s_init" % fam, st)
+                R.call("ascon_%s_update" % fam, st, M, 9)
+                R.call("ascon_%s_finalize" % fam, st, ref)
+            want = R.read(ref, 32)
+            fct = m.funcs[ctor]
+            sn = effects.Layouts.pointee_struct(fct.param_ty[0])
+            size = (m.structs.get(sn) or {}).get("size")
+            if not size:
+                raise Unsupported("size of %s unknown" % cls)
+            obj = R.obj(size)
+            R.call(ctor, obj)
+            for phase in ("a fresh object", "the object after reset()", "the object after a second reset()"):
+                if phase != "a fresh object":
+                    R.call(reset, obj)
+                o = R.out(32)
+                R.call(absorb, obj, M, 9)
+                if fam.startswith("xof"):
+                    R.call(squeeze, obj, o, 32)
+                else:
+                    R.call(squeeze, obj, o)
+                d = modes.first_diff(R.read(o, 32), want)
+                if d:
+                    f = m.funcs[reset if phase != "a fresh object" else ctor]
+                    rep.violation(rid, "%s:%s" % (re.sub(r"<\d+ul>", "<N>", cls), "reset" if phase != "a fresh object" else "constructor"), f.src,
+                                  "ascon::%s: %s gives output that differs from the C sequence ascon_%s_init%s / absorb / squeeze at %s "
+                                  "(for every input value)" % (cls, phase, fam, "_fixed(%d)" % n if n is not None else "", d))
+                    break
+            else:
+                rep.instance(rid, 1, {"class": cls})
+        except Unsupported as e:
+            rep.unproved_item(rid, "%s: %s" % (cls, e))
